@@ -772,9 +772,8 @@ func (x *Exec) setRaw(st *State, key string, t *Term) {
 	st.assume(Eq(v, t))
 	x.defs[v.Name] = t
 	st.heap[key] = v
-	if st.written != nil {
-		st.written[key] = true
-	}
+	x.recordWrite(st, key, t)
+	x.frameWrite(st, key, t)
 }
 
 func (x *Exec) makeMap(st *State, T types.Type) Value {
@@ -892,6 +891,60 @@ func (x *Exec) next(fr *Frame, st *State, in *ssa.Next) {
 
 // checkFrame / checkAlloc are hooks refined in contract-driven modes.
 func (x *Exec) checkFrame(fr *Frame, st *State, loc *Loc, pos token.Pos) {}
+
+// frameWrite is called for every heap write (term t = (store comp ref …)) while the body of a function
+// under contract is executed: the written object must be new (allocated during this call) or named in
+// the contract's modifies clause. This is what makes call-site reasoning by contract sound.
+func (x *Exec) frameWrite(st *State, k string, t *Term) {
+	if !x.frameOn || st.dry || x.inInit || x.frameOff > 0 {
+		return
+	}
+	label := "write"
+	pos := token.NoPos
+	if x.curIns != nil && x.curFr != nil {
+		pos = x.curIns.Pos()
+		label = x.src(x.curFr.fn, pos, "write")
+	}
+	if t == nil || t.Op != "store" {
+		x.oblige(x.curFr, st, "frame", label+"@"+famOfKey(k)+"(whole component)", pos, False)
+		return
+	}
+	ref := t.Args[1]
+	if ref.Op == "const" && strings.HasPrefix(ref.Name, "ref_") {
+		return // allocated during this call
+	}
+	cs := []*Term{IntCmp(">", ref, x.alloc0)}
+	for _, m := range x.modRefs {
+		cs = append(cs, Eq(ref, m))
+	}
+	x.oblige(x.curFr, st, "frame", label+"@"+famOfKey(k), pos, Or(cs...))
+}
+
+func famOfKey(k string) string {
+	if i := strings.LastIndex(k, "#"); i > 0 {
+		return k[:i]
+	}
+	return k
+}
+
+// refsOf returns the references of the objects directly denoted by v (for modifies clauses).
+func (x *Exec) refsOf(v Value) []*Term {
+	switch v.T.Underlying().(type) {
+	case *types.Slice, *types.Map, *types.Chan:
+		return []*Term{v.L[0]}
+	case *types.Pointer:
+		if v.L[0] == nil {
+			return []*Term{x.ptrLoc(v).Ref}
+		}
+		if l := x.locOf[v.L[0].String()]; l != nil {
+			return []*Term{l.Ref}
+		}
+		return []*Term{v.L[0]}
+	case *types.Interface:
+		return []*Term{v.L[1]}
+	}
+	return nil
+}
 
 func (x *Exec) checkAlloc(fr *Frame, st *State, in ssa.Instruction, n *Term) {}
 
